@@ -77,15 +77,23 @@ impl<'a, T: Read + Seek> QueueReader<'a, T> {
         let packet_header = PacketHeader::read(self.reader)?;
         match packet_header {
             PacketHeader::Index(header) => {
-                // Just skip over index packets
-                let mut buffer = vec![0; header.packet_length as usize];
+                // Just skip over index packets, the header with 16 bytes was already consumed
+                let remaining = header
+                    .packet_length
+                    .checked_sub(16)
+                    .invalid_err("Index packet length is smaller than its header")?;
+                let mut buffer = vec![0; remaining as usize];
                 self.reader
                     .read_exact(&mut buffer)
                     .read_err("Failed to read data of index packet")?
             }
             PacketHeader::Ignored(header) => {
-                // Just skip over ignored packets
-                let mut buffer = vec![0; header.packet_length as usize];
+                // Just skip over ignored packets, the header with 4 bytes was already consumed
+                let remaining = header
+                    .packet_length
+                    .checked_sub(4)
+                    .invalid_err("Ignored packet length is smaller than its header")?;
+                let mut buffer = vec![0; remaining as usize];
                 self.reader
                     .read_exact(&mut buffer)
                     .read_err("Failed to read data of ignored packet")?
